@@ -109,11 +109,12 @@ type request struct {
 }
 
 type endpoint struct {
-	name string
-	sess *kcp.UDPSession
-	conn *rconn
-	peer *endpoint
-	dead bool // aborted after a recovered panic
+	name    string
+	sess    *kcp.UDPSession
+	conn    *rconn
+	peer    *endpoint
+	dead    bool // aborted after a recovered panic
+	closing bool // Close was called: the output callback may drop packets (die is closed), best effort only
 
 	reqs    []request // requests produced since the last collect
 	written []byte
@@ -373,6 +374,9 @@ func (w *world) process(e *endpoint, reqs []request, wires [][]byte) {
 		} else {
 			groups = append(groups, []emitted{em})
 		}
+	}
+	if e.closing {
+		return
 	}
 	if len(groups) != len(live) {
 		w.viol("wire-request-count", fmt.Sprintf("%s: %d requests were queued for post-processing but %d originals reached WriteTo", e.name, len(live), len(groups)))
@@ -773,6 +777,7 @@ func (w *world) finish() {
 		w.read(e)
 	}
 	for _, e := range []*endpoint{w.A, w.B} {
+		e.closing = true
 		if !e.dead {
 			w.try(e, "Close", func() { e.sess.Close() })
 		}
